@@ -85,6 +85,7 @@ struct Rec {
   std::function<void(SymD const*, SymD*)> fd;          // double-typed real unit (same trace format, 64-bit in evalcheck)
   std::function<void(SymI32 const*, SymI32*)> fi;
   std::function<void(SymU32 const*, SymU32*)> fu;
+  std::vector<uint32_t> lit_args;                     // unit without inputs = a constructor taking C++ integers, traced at these arguments
 };
 static std::vector<Rec>& reg() { static std::vector<Rec> r; return r; }
 template<class F> void add_r(std::string const& n, int nin, int nout, F f) { Rec r; r.name = n; r.nin = nin; r.nout = nout; r.mode = SymPolicy::M_R; r.fr = f; reg().push_back(std::move(r)); }
@@ -150,7 +151,7 @@ template<class S, class F> static Traced run_unit(Rec const& u, F const& f) {
 // simd_<op>_<isa> must give what the real SIMD build of glm returned, bit for bit (NaN = NaN; units that used
 // rcp/rsqrt: inputs restricted to 0 or 2^-40 <= |x| <= 2^40, relative 2^-9 of the largest output; conditions listed in
 // `# signbit-conds` are read as the exact sign bit of their operand).
-struct Snap { bool is_double = false; Traced tr; std::vector<Node> nodes; std::set<std::string> notes; std::set<uint32_t> sign_conds; };
+struct Snap { bool is_double = false; std::vector<uint32_t> lit_args; Traced tr; std::vector<Node> nodes; std::set<std::string> notes; std::set<uint32_t> sign_conds; };
 template<class T> struct EvalT;
 template<> struct EvalT<float> {
   static float lit(Node const& n) { return (float)n.d; }
@@ -246,13 +247,13 @@ template<class T> static bool eval_unit(Snap const& sn, std::vector<uint64_t> co
 }
 static Snap snap_unit(Rec const& u) {
   arena().clear(); SymPolicy::reset(u.mode);
-  Snap s; s.is_double = (bool)u.fd; s.tr = u.fd ? run_unit<SymD>(u, u.fd) : u.mode == SymPolicy::M_R ? run_unit<SymR>(u, u.fr) : u.mode == SymPolicy::M_I32 ? run_unit<SymI32>(u, u.fi) : run_unit<SymU32>(u, u.fu);
+  Snap s; s.is_double = (bool)u.fd; s.lit_args = u.lit_args; s.tr = u.fd ? run_unit<SymD>(u, u.fd) : u.mode == SymPolicy::M_R ? run_unit<SymR>(u, u.fr) : u.mode == SymPolicy::M_I32 ? run_unit<SymI32>(u, u.fi) : run_unit<SymU32>(u, u.fu);
   s.nodes = arena().nodes; s.notes = SymPolicy::notes(); s.sign_conds = SymPolicy::signbit_conds(); return s;
 }
 static int evalcheck(const char* build, FILE* fp) {
   bool simd = !strcmp(build, "simd");
   std::map<std::string, Snap> cache; std::map<std::string, long> per_unit_bad;
-  long lines = 0, ok = 0, bad = 0, skipped = 0, nounit = 0, nopath = 0, approx_oor = 0; int shown = 0; std::set<std::string> units_seen, units_x;
+  long lines = 0, ok = 0, bad = 0, skipped = 0, nounit = 0, nopath = 0, approx_oor = 0, lit_other = 0; int shown = 0; std::set<std::string> units_seen, units_x;
   char* buf = 0; size_t cap = 0;
   while (getline(&buf, &cap, fp) > 0) {
     if (buf[0] == '#' || buf[0] == '\n') continue;
@@ -271,6 +272,11 @@ static int evalcheck(const char* build, FILE* fp) {
     std::vector<uint64_t> inb, exp, got; size_t k = 1;
     for (; k < tok.size() && tok[k] != "->"; ++k) inb.push_back(strtoull(tok[k].c_str(), 0, 10));
     for (++k; k < tok.size(); ++k) exp.push_back(strtoull(tok[k].c_str(), 0, 10));
+    if (!sn.lit_args.empty()) {          // traced at fixed literal arguments: only the harness line at those arguments is comparable
+      bool same = inb.size() == sn.lit_args.size(); for (size_t i = 0; same && i < inb.size(); ++i) same = (uint32_t)inb[i] == sn.lit_args[i];
+      if (!same) { ++lit_other; continue; }
+      inb.clear();
+    }
     if ((int)inb.size() != sn.tr.nin || (int)exp.size() != sn.tr.nout) { ++bad; if (shown++ < 30) printf("EVAL-ARITY %s\n", un.c_str()); continue; }
     bool found;
     try { found = sn.is_double ? eval_unit<double>(sn, inb, got) : sn.tr.ty == T_R ? eval_unit<float>(sn, inb, got) : sn.tr.ty == T_I32 ? eval_unit<int32_t>(sn, inb, got) : eval_unit<uint32_t>(sn, inb, got); }
@@ -297,7 +303,7 @@ static int evalcheck(const char* build, FILE* fp) {
   }
   for (auto const& kv : per_unit_bad) printf("EVAL-UNIT-MISMATCHES %s %ld\n", kv.first.c_str(), kv.second);
   for (auto const& u : units_x) printf("EVAL-SKIPPED-X-UNIT %s\n", u.c_str());
-  printf("EVAL build=%s isa=%s units=%d lines=%ld ok=%ld mismatch=%ld skipped_x_units=%ld approx_out_of_range=%ld no_unit=%ld\n", build, ISA_TAG.c_str(), (int)units_seen.size(), lines, ok, bad, skipped, approx_oor, nounit);
+  printf("EVAL build=%s isa=%s units=%d lines=%ld ok=%ld mismatch=%ld skipped_x_units=%ld approx_out_of_range=%ld other_args_of_literal_units=%ld no_unit=%ld\n", build, ISA_TAG.c_str(), (int)units_seen.size(), lines, ok, bad, skipped, approx_oor, lit_other, nounit);
   return bad ? 1 : 0;
 }
 
@@ -363,8 +369,31 @@ struct TraceReg {
   template<class S, class T> struct LDI<glm::aligned_highp, S, T> { static glm::vec<4, T, glm::aligned_highp> get(S const* x) { glm::vec<4, T, glm::aligned_highp> v; v.data = ldki(x); return v; } };
   template<glm::qualifier Q> static auto ldi(SymI32 const* x) { return LDI<Q, SymI32, int>::get(x); }
   template<glm::qualifier Q> static auto ldu(SymU32 const* x) { return LDI<Q, SymU32, unsigned>::get(x); }
-  template<class S, class T> static void sti(S* o, glm::vec<4, T, glm::aligned_highp> const& v) { stki(o, v.data); }
-  template<class S> static void sti(S* o, glm::vec<4, S, glm::packed_highp> const& v) { for (int i = 0; i < 4; ++i) o[i] = v[i]; }
+  // store: a vector of SymI32/SymU32 directly; a vector of C++ int/unsigned (aligned, or a packed one filled by glm's
+  // conversion code) holds lane words, which are decoded
+  template<class S> static S unword_w(uint32_t w) { uint32_t id; return S::from(SymPolicy::dec(SymPolicy::W{w}, id) ? id : 0xFFFFFFFFu); }
+  template<int L, class S, glm::qualifier Q> static void sti(S* o, glm::vec<L, S, Q> const& v) { for (int i = 0; i < L; ++i) o[i] = v[i]; }
+  template<int L, class S, glm::qualifier Q> static void sti(S* o, glm::vec<L, int, Q> const& v) { for (int i = 0; i < L; ++i) o[i] = unword_w<S>((uint32_t)v[i]); }
+  template<int L, class S, glm::qualifier Q> static void sti(S* o, glm::vec<L, unsigned, Q> const& v) { for (int i = 0; i < L; ++i) o[i] = unword_w<S>((uint32_t)v[i]); }
+  // the C++ integer a constructor receives for input x
+  template<glm::qualifier Q, class S, class T> struct IARG { static S get(S x) { return x; } };
+  template<class S, class T> struct IARG<glm::aligned_highp, S, T> { static T get(S x) { return (T)SymPolicy::enc(x.id).raw; } };
+  template<glm::qualifier Q> static auto iarg(SymI32 x) { return IARG<Q, SymI32, int>::get(x); }
+  template<glm::qualifier Q> static auto iarg(SymU32 x) { return IARG<Q, SymU32, unsigned>::get(x); }
+  // constructors taking C++ integers, traced at the fixed literal arguments: units without inputs
+  template<class S, class A, class Fn> void lit_fam(std::string const& op, int nargs, int nout, Fn f) {
+    std::vector<uint32_t> lits; for (int i = 0; i < nargs; ++i) lits.push_back((uint32_t)(A)c03::C03_LIT[i]);
+    if (std::is_unsigned<A>::value) for (auto& v : lits) if ((int32_t)v < 0) v = (uint32_t)(-(int32_t)v);       // unsigned variants use |literal|
+    add_t((S*)0, "pure_" + op, 0, nout, [f, lits](S const*, S* o) { A a[4]; for (size_t i = 0; i < lits.size(); ++i) a[i] = (A)lits[i]; f(a, o, QT<glm::packed_highp>()); }); reg().back().lit_args = lits;
+    add_t((S*)0, "simd_" + op + "_" + ISA_TAG, 0, nout, [f, lits](S const*, S* o) { A a[4]; for (size_t i = 0; i < lits.size(); ++i) a[i] = (A)lits[i]; f(a, o, QT<glm::aligned_highp>()); }); reg().back().lit_args = lits;
+  }
+  template<class S, class A, class Fn> void lit_fam_q(std::string const& op, int nargs, int nout, Fn f) {
+    lit_fam<S, A>(op, nargs, nout, f);
+    std::vector<uint32_t> lits = reg().back().lit_args;
+    auto one = [&](std::string const& n, auto qq) { add_t((S*)0, n, 0, nout, [f, lits, qq](S const*, S* o) { A a[4]; for (size_t i = 0; i < lits.size(); ++i) a[i] = (A)lits[i]; f(a, o, qq); }); reg().back().lit_args = lits; };
+    one("pure_" + op + "_mediump", QT<glm::packed_mediump>()); one("simd_" + op + "_mediump_" + ISA_TAG, QT<glm::aligned_mediump>());
+    one("pure_" + op + "_lowp", QT<glm::packed_lowp>()); one("simd_" + op + "_lowp_" + ISA_TAG, QT<glm::aligned_lowp>());
+  }
 };
 
 int main(int argc, char** argv) {
